@@ -181,6 +181,20 @@ Theorem C07_literals_keep_type n s :
   (n = NFraction → lit_kind n s = KFraction).
 Proof. exact (literals_keep_type n s). Qed.
 
+(** integers stay integers, exactly: the value of an integer literal is the positional reading of
+    its digits (one more digit = ten times the value plus the digit; underscores do not count),
+    so literals beyond 2^53 keep every digit *)
+Theorem C07_int_literal_exact (l : list Ascii.ascii) (a : Ascii.ascii) :
+  (is_digit a = true → dval (l ++ [a]) = (10 * dval l + digit_val a)%N)
+  ∧ (is_digit a = false → dval (l ++ [a]) = dval l).
+Proof. exact (conj (dval_snoc_digit l a) (dval_snoc_other l a)). Qed.
+Example C07_int_literal_examples :
+  lit_int_value "9007199254740993" = 9007199254740993%N
+  ∧ lit_int_value "1700000000123456789" = 1700000000123456789%N
+  ∧ lit_int_value "340282366920938463463374607431768211457" = 340282366920938463463374607431768211457%N
+  ∧ lit_int_value "1_000" = 1000%N ∧ is_int_lit "9007199254740993" = true.
+Proof. exact lit_int_value_examples. Qed.
+
 (** ** Non-vacuity *)
 Definition ex1 : expr :=   (* 2 m**2 s - 4 ** -2 *)
   Grammar.Bin OSub
